@@ -191,6 +191,9 @@ impl CodeDisplay {
         } else {
             self.message_type
                 .write_with_color_enablement(out, color_enabled)?;
+            if let Some(code_id) = self.code_id {
+                write!(out, "[{code_id}]")?;
+            }
             writeln!(out, ": {}", self.message)?;
         }
         for span_display in &self.span_displays {
